@@ -31,6 +31,90 @@ deriving Inhabited
 
 @[inline] def faceOfCorner (c : Nat) : Nat := if c == inv then inv else c / 3
 
+/-- `if (!IsVertexVisited(v)) { MarkVertexVisited(v); OnNewVertexVisited(v, corner); }` -/
+@[inline] def visitVertex (faces : Array Nat) (vv : Array Bool) (out : SeqOut) (v corner : Nat) :
+    R (Array Bool × SeqOut) := do
+  if !(← rdB "is_vertex_visited_" vv v) then
+    let vv ← wrB "is_vertex_visited_" vv v true
+    let out ← onNewVertex faces out v corner
+    pure (vv, out)
+  else pure (vv, out)
+
+/-- the `while (true)` loop of `DepthFirstTraverser::TraverseFromCorner`, started at the corner on top
+    of the stack; returns the visited flags, the sequence and the stack -/
+def dfInner (t : TView) (faces : Array Nat) (fuel : Nat) (fv vv : Array Bool) (out : SeqOut)
+    (stack : Array Nat) (cornerId faceId : Nat) : R (Array Bool × Array Bool × SeqOut × Array Nat) := do
+  let mut fv := fv
+  let mut vv := vv
+  let mut out := out
+  let mut stack := stack
+  let mut cornerId := cornerId
+  let mut faceId := faceId
+  let mut fin2 := false
+  for _ in [0:fuel] do
+    fv ← wrB "MarkFaceVisited" fv faceId true
+    let vertId ← t.vertex cornerId
+    if vertId == inv then raise .fail
+    if !(← rdB "is_vertex_visited_" vv vertId) then
+      let onBoundary ← t.isOnBoundary vertId
+      vv ← wrB "is_vertex_visited_" vv vertId true
+      out ← onNewVertex faces out vertId cornerId
+      if !onBoundary then
+        cornerId ← t.rightCorner cornerId
+        faceId := cornerId / 3
+        continue
+    let right ← t.rightCorner cornerId
+    let left ← t.leftCorner cornerId
+    let rightFace := faceOfCorner right
+    let leftFace := faceOfCorner left
+    if (← faceVisited fv rightFace) then
+      if (← faceVisited fv leftFace) then
+        stack := stack.pop
+        fin2 := true
+        break
+      else
+        cornerId := left
+        faceId := leftFace
+    else
+      if (← faceVisited fv leftFace) then
+        cornerId := right
+        faceId := rightFace
+      else
+        stack := stack.set! (stack.size - 1) left
+        stack := stack.push right
+        fin2 := true
+        break
+  if !fin2 then raise (.fuel "DepthFirstTraverser: inner loop")
+  pure (fv, vv, out, stack)
+
+/-- the `while (!corner_traversal_stack_.empty())` loop of `TraverseFromCorner` -/
+def dfStack (t : TView) (faces : Array Nat) (fuel : Nat) (fv vv : Array Bool) (out : SeqOut)
+    (stack : Array Nat) : R (Array Bool × Array Bool × SeqOut) := do
+  let mut fv := fv
+  let mut vv := vv
+  let mut out := out
+  let mut stack := stack
+  let mut fin := false
+  for _ in [0:fuel] do
+    if stack.isEmpty then
+      fin := true
+      break
+    let cornerId := stack.back!
+    let faceId := cornerId / 3
+    if cornerId == inv then
+      stack := stack.pop
+      continue
+    if (← faceVisited fv faceId) then
+      stack := stack.pop
+      continue
+    let (fv', vv', out', stack') ← dfInner t faces fuel fv vv out stack cornerId faceId
+    fv := fv'
+    vv := vv'
+    out := out'
+    stack := stack'
+  if !fin then raise (.fuel "DepthFirstTraverser: stack loop")
+  pure (fv, vv, out)
+
 /-- `MeshTraversalSequencer<DepthFirstTraverser>::GenerateSequenceInternal`
     (`corner_order_ == nullptr` in the decoder). `v2dSize` is the size given to
     `MeshAttributeIndicesEncodingData::Init`. -/
@@ -41,71 +125,121 @@ def depthFirst (t : TView) (faces : Array Nat) (v2dSize : Nat) : R SeqOut := do
   let mut fv := Array.replicate nf false
   let mut vv := Array.replicate nv false
   let mut out : SeqOut := { pointIds := Array.mkEmpty nv, d2c := Array.mkEmpty nv, v2d := Array.replicate v2dSize 0 }
-  let mut stack : Array Nat := #[]
   for i in [0:nf] do
     -- TraverseFromCorner(3 i)
     let c0 := 3 * i
     if (← rdB "is_face_visited_" fv i) then continue
-    stack := #[c0]
     let nextVert ← t.vertex (nextC c0)
     let prevVert ← t.vertex (prevC c0)
-    if nextVert == inv || prevVert == inv then throw .fail
-    if !(← rdB "is_vertex_visited_" vv nextVert) then
-      vv ← wrB "is_vertex_visited_" vv nextVert true
-      out ← onNewVertex faces out nextVert (nextC c0)
-    if !(← rdB "is_vertex_visited_" vv prevVert) then
-      vv ← wrB "is_vertex_visited_" vv prevVert true
-      out ← onNewVertex faces out prevVert (prevC c0)
-    let mut fin := false
-    for _ in [0:fuel] do
-      if stack.isEmpty then
-        fin := true
-        break
-      let mut cornerId := stack.back!
-      let mut faceId := cornerId / 3
-      if cornerId == inv then
-        stack := stack.pop
-        continue
-      if (← faceVisited fv faceId) then
-        stack := stack.pop
-        continue
-      let mut fin2 := false
-      for _ in [0:fuel] do
-        fv ← wrB "MarkFaceVisited" fv faceId true
-        let vertId ← t.vertex cornerId
-        if vertId == inv then throw .fail
-        if !(← rdB "is_vertex_visited_" vv vertId) then
-          let onBoundary ← t.isOnBoundary vertId
-          vv ← wrB "is_vertex_visited_" vv vertId true
-          out ← onNewVertex faces out vertId cornerId
-          if !onBoundary then
-            cornerId ← t.rightCorner cornerId
-            faceId := cornerId / 3
-            continue
-        let right ← t.rightCorner cornerId
-        let left ← t.leftCorner cornerId
-        let rightFace := faceOfCorner right
-        let leftFace := faceOfCorner left
-        if (← faceVisited fv rightFace) then
-          if (← faceVisited fv leftFace) then
-            stack := stack.pop
-            fin2 := true
-            break
-          else
-            cornerId := left
-            faceId := leftFace
-        else
-          if (← faceVisited fv leftFace) then
-            cornerId := right
-            faceId := rightFace
-          else
-            stack := stack.set! (stack.size - 1) left
-            stack := stack.push right
-            fin2 := true
-            break
-      if !fin2 then throw (.fuel "DepthFirstTraverser: inner loop")
-    if !fin then throw (.fuel "DepthFirstTraverser: stack loop")
+    if nextVert == inv || prevVert == inv then raise .fail
+    let (vv1, out1) ← visitVertex faces vv out nextVert (nextC c0)
+    let (vv2, out2) ← visitVertex faces vv1 out1 prevVert (prevC c0)
+    let (fv3, vv3, out3) ← dfStack t faces fuel fv vv2 out2 #[c0]
+    fv := fv3
+    vv := vv3
+    out := out3
   pure out
+
+/-- `ComputePriority` + `AddCornerToTraversalStack` / direct continuation of
+    `MaxPredictionDegreeTraverser`: the priority of `corner` -/
+@[inline] def mpPriority (t : TView) (vv : Array Bool) (degree : Array Nat) (corner : Nat) :
+    R (Nat × Array Nat) := do
+  let vTip ← t.vertex corner
+  if !(← rdB "is_vertex_visited_" vv vTip) then
+    let d := (← rd "prediction_degree_" degree vTip) + 1
+    let degree ← wr "prediction_degree_" degree vTip d
+    pure (if d > 1 then 1 else 2, degree)
+  else pure (0, degree)
+
+/-- state of the three priority stacks of `MaxPredictionDegreeTraverser` -/
+structure MpStacks where
+  st0 : Array Nat := #[]
+  st1 : Array Nat := #[]
+  st2 : Array Nat := #[]
+  best : Nat := 0
+
+/-- `AddCornerToTraversalStack` -/
+@[inline] def MpStacks.add (s : MpStacks) (corner priority : Nat) : MpStacks :=
+  let s := if priority == 0 then { s with st0 := s.st0.push corner }
+           else if priority == 1 then { s with st1 := s.st1.push corner }
+           else { s with st2 := s.st2.push corner }
+  if priority < s.best then { s with best := priority } else s
+
+/-- `PopNextCornerToTraverse` -/
+@[inline] def MpStacks.pop (s : MpStacks) : Nat × MpStacks :=
+  if s.best ≤ 0 && !s.st0.isEmpty then (s.st0.back!, { s with st0 := s.st0.pop, best := 0 })
+  else if s.best ≤ 1 && !s.st1.isEmpty then (s.st1.back!, { s with st1 := s.st1.pop, best := 1 })
+  else if !s.st2.isEmpty then (s.st2.back!, { s with st2 := s.st2.pop, best := 2 })
+  else (inv, s)
+
+/-- the `while (true)` loop of `MaxPredictionDegreeTraverser::TraverseFromCorner` -/
+def mpInner (t : TView) (faces : Array Nat) (fuel : Nat) (fv vv : Array Bool) (out : SeqOut)
+    (degree : Array Nat) (stacks : MpStacks) (cornerId : Nat) :
+    R (Array Bool × Array Bool × SeqOut × Array Nat × MpStacks) := do
+  let mut fv := fv
+  let mut vv := vv
+  let mut out := out
+  let mut degree := degree
+  let mut stacks := stacks
+  let mut cornerId := cornerId
+  let mut fin2 := false
+  for _ in [0:fuel] do
+    let faceId := cornerId / 3
+    fv ← wrB "MarkFaceVisited" fv faceId true
+    let vertId ← t.vertex cornerId
+    let (vv1, out1) ← visitVertex faces vv out vertId cornerId
+    vv := vv1
+    out := out1
+    let right ← t.rightCorner cornerId
+    let left ← t.leftCorner cornerId
+    let rightVisited ← faceVisited fv (faceOfCorner right)
+    let leftVisited ← faceVisited fv (faceOfCorner left)
+    if !leftVisited then
+      let (priority, degree1) ← mpPriority t vv degree left
+      degree := degree1
+      if rightVisited && priority ≤ stacks.best then
+        cornerId := left
+        continue
+      else
+        stacks := stacks.add left priority
+    if !rightVisited then
+      let (priority, degree1) ← mpPriority t vv degree right
+      degree := degree1
+      if priority ≤ stacks.best then
+        cornerId := right
+        continue
+      else
+        stacks := stacks.add right priority
+    fin2 := true
+    break
+  if !fin2 then raise (.fuel "MaxPredictionDegreeTraverser: inner loop")
+  pure (fv, vv, out, degree, stacks)
+
+/-- the `while ((corner_id = PopNextCornerToTraverse()) != kInvalidCornerIndex)` loop -/
+def mpStack (t : TView) (faces : Array Nat) (fuel : Nat) (fv vv : Array Bool) (out : SeqOut)
+    (degree : Array Nat) (stacks : MpStacks) :
+    R (Array Bool × Array Bool × SeqOut × Array Nat × MpStacks) := do
+  let mut fv := fv
+  let mut vv := vv
+  let mut out := out
+  let mut degree := degree
+  let mut stacks := stacks
+  let mut fin := false
+  for _ in [0:fuel] do
+    let (cornerId, stacks1) := stacks.pop
+    stacks := stacks1
+    if cornerId == inv then
+      fin := true
+      break
+    if (← faceVisited fv (cornerId / 3)) then continue
+    let (fv', vv', out', degree', stacks') ← mpInner t faces fuel fv vv out degree stacks cornerId
+    fv := fv'
+    vv := vv'
+    out := out'
+    degree := degree'
+    stacks := stacks'
+  if !fin then raise (.fuel "MaxPredictionDegreeTraverser: stack loop")
+  pure (fv, vv, out, degree, stacks)
 
 /-- `MeshTraversalSequencer<MaxPredictionDegreeTraverser>::GenerateSequenceInternal`
     (only instantiated for the base corner table) -/
@@ -118,94 +252,23 @@ def maxPredictionDegree (t : TView) (faces : Array Nat) (v2dSize : Nat) : R SeqO
   let mut out : SeqOut := { pointIds := Array.mkEmpty nv, d2c := Array.mkEmpty nv, v2d := Array.replicate v2dSize 0 }
   -- OnTraversalStart
   let mut degree := Array.replicate nv 0
-  let mut st0 : Array Nat := #[]
-  let mut st1 : Array Nat := #[]
-  let mut st2 : Array Nat := #[]
-  let mut best := 0
+  let mut stacks : MpStacks := {}
   for i in [0:nf] do
     let c0 := 3 * i
     if nv == 0 then continue
-    st0 := st0.push c0
-    best := 0
+    stacks := { stacks with st0 := stacks.st0.push c0, best := 0 }
     let nextVert ← t.vertex (nextC c0)
     let prevVert ← t.vertex (prevC c0)
-    if !(← rdB "is_vertex_visited_" vv nextVert) then
-      vv ← wrB "is_vertex_visited_" vv nextVert true
-      out ← onNewVertex faces out nextVert (nextC c0)
-    if !(← rdB "is_vertex_visited_" vv prevVert) then
-      vv ← wrB "is_vertex_visited_" vv prevVert true
-      out ← onNewVertex faces out prevVert (prevC c0)
+    let (vv1, out1) ← visitVertex faces vv out nextVert (nextC c0)
+    let (vv2, out2) ← visitVertex faces vv1 out1 prevVert (prevC c0)
     let tip ← t.vertex c0
-    if !(← rdB "is_vertex_visited_" vv tip) then
-      vv ← wrB "is_vertex_visited_" vv tip true
-      out ← onNewVertex faces out tip c0
-    let mut fin := false
-    for _ in [0:fuel] do
-      -- PopNextCornerToTraverse
-      let mut cornerId := inv
-      if best ≤ 0 && !st0.isEmpty then
-        cornerId := st0.back!
-        st0 := st0.pop
-        best := 0
-      else if best ≤ 1 && !st1.isEmpty then
-        cornerId := st1.back!
-        st1 := st1.pop
-        best := 1
-      else if !st2.isEmpty then
-        cornerId := st2.back!
-        st2 := st2.pop
-        best := 2
-      if cornerId == inv then
-        fin := true
-        break
-      if (← faceVisited fv (cornerId / 3)) then continue
-      let mut fin2 := false
-      for _ in [0:fuel] do
-        let faceId := cornerId / 3
-        fv ← wrB "MarkFaceVisited" fv faceId true
-        let vertId ← t.vertex cornerId
-        if !(← rdB "is_vertex_visited_" vv vertId) then
-          vv ← wrB "is_vertex_visited_" vv vertId true
-          out ← onNewVertex faces out vertId cornerId
-        let right ← t.rightCorner cornerId
-        let left ← t.leftCorner cornerId
-        let rightVisited ← faceVisited fv (faceOfCorner right)
-        let leftVisited ← faceVisited fv (faceOfCorner left)
-        if !leftVisited then
-          -- ComputePriority(left_corner_id)
-          let vTip ← t.vertex left
-          let mut priority := 0
-          if !(← rdB "is_vertex_visited_" vv vTip) then
-            let d := (← rd "prediction_degree_" degree vTip) + 1
-            degree ← wr "prediction_degree_" degree vTip d
-            priority := if d > 1 then 1 else 2
-          if rightVisited && priority ≤ best then
-            cornerId := left
-            continue
-          else
-            if priority == 0 then st0 := st0.push left
-            else if priority == 1 then st1 := st1.push left
-            else st2 := st2.push left
-            if priority < best then best := priority
-        if !rightVisited then
-          let vTip ← t.vertex right
-          let mut priority := 0
-          if !(← rdB "is_vertex_visited_" vv vTip) then
-            let d := (← rd "prediction_degree_" degree vTip) + 1
-            degree ← wr "prediction_degree_" degree vTip d
-            priority := if d > 1 then 1 else 2
-          if priority ≤ best then
-            cornerId := right
-            continue
-          else
-            if priority == 0 then st0 := st0.push right
-            else if priority == 1 then st1 := st1.push right
-            else st2 := st2.push right
-            if priority < best then best := priority
-        fin2 := true
-        break
-      if !fin2 then throw (.fuel "MaxPredictionDegreeTraverser: inner loop")
-    if !fin then throw (.fuel "MaxPredictionDegreeTraverser: stack loop")
+    let (vv3, out3) ← visitVertex faces vv2 out2 tip c0
+    let (fv4, vv4, out4, degree4, stacks4) ← mpStack t faces fuel fv vv3 out3 degree stacks
+    fv := fv4
+    vv := vv4
+    out := out4
+    degree := degree4
+    stacks := stacks4
   pure out
 
 end Draco.Eb
